@@ -139,18 +139,21 @@ func (t *XMPPTransport) Write(p []byte) (n int, err error) {
 }
 
 func (t *XMPPTransport) Close() error {
+	// Close the connection that is current now: while we wait for the server, a reconnection may install
+	// a new connection on this transport, and that one is not ours to close.
+	conn, closeChan := t.conn, t.closeChan
 	if t.readWriter != nil {
 		_, _ = t.readWriter.Write([]byte(stanza.StreamClose))
 	}
 
 	// Try to wait for the stream close tag from the server. After a timeout, disconnect anyway.
 	select {
-	case <-t.closeChan:
+	case <-closeChan:
 	case <-time.After(time.Duration(t.Config.ConnectTimeout) * time.Second):
 	}
 
-	if t.conn != nil {
-		return t.conn.Close()
+	if conn != nil {
+		return conn.Close()
 	}
 	return nil
 }
